@@ -133,6 +133,38 @@ Theorem c10_exchange_units_retried : forall port t,
 Proof. exact (fun port t => conj eq_refl (conj eq_refl (conj eq_refl (fun g => eq_refl)))). Qed.
 Print Assumptions c10_exchange_units_retried.
 
+(* ---- lost replies inside the exchanges of several steps: any vector of faults (the handshake reply lost; the handshake
+   answered, then the data reply lost) no longer than the retry count, followed by a valid exchange, gives exactly the
+   fault-free result.  GameSpy 1: requests that get no answer at all. ---- *)
+From GD Require Import Spec.GamespySpec Spec.GamesSpec Proofs.Gamespy2Roundtrip Proofs.Jc2mRoundtrip Proofs.Gamespy3Reply Proofs.Gamespy1Assembly Proofs.Gamespy1Response
+  Proofs.Gamespy3Retry Proofs.Jc2mRetry Proofs.Gamespy1Retry.
+Theorem c10_fault_events_mean : forall s f,
+  fault_events s f = match f with LostHandshake => [Timeout] | LostData => [Datagram (s3_handshake s); Timeout] end.
+Proof. intros s f; destruct f; reflexivity. Qed.
+Print Assumptions c10_fault_events_mean.
+Theorem c10_gs3_lost_replies_retried : forall port s,
+  (- 2147483648 <= s3_challenge s < 2147483648)%Z -> (length (show_Z (s3_challenge s)) <= 10)%nat ->
+  forall t v, settings_ok t -> (length v <= N.to_nat (ts_retries_or_default t))%nat ->
+  wf_s3 s = true -> (length (s3_payloads s) <= 128)%nat -> Forall (fun p => (length p + 17 <= 2048)%nat) (s3_payloads s) ->
+  fst (gs3_query port t (net_init (flat_map (fault_events s) v ++ map Datagram (s3_script s)) [] [])) = Ok (s3_expected s).
+Proof. exact gs3_lost_replies_retried. Qed.
+Print Assumptions c10_gs3_lost_replies_retried.
+Theorem c10_jc2m_lost_replies_retried : forall port s,
+  (- 2147483648 <= js_challenge s < 2147483648)%Z -> (length (show_Z (js_challenge s)) <= 10)%nat ->
+  length (js_skip s) = 11%nat -> (length (jc_data s) + 16 <= 2048)%nat ->
+  forall t v, settings_ok t -> (length v <= N.to_nat (ts_retries_or_default t))%nat -> wf_jc s = true ->
+  fst (jc2m_query port t (net_init (flat_map (jc_fault_events s) v ++ map Datagram (jc_script s)) [] [])) = Ok (jc_expected s).
+Proof. exact jc2m_lost_replies_retried. Qed.
+Print Assumptions c10_jc2m_lost_replies_retried.
+Theorem c10_gs1_unanswered_requests_retried : forall port s,
+  Forall pair_ok (s1_vars s) -> s1_qid s <= 18446744073709551615 ->
+  Forall (fun d => (length d <= 1024)%nat) (s1_script s) -> N.of_nat (length (s1_script s)) < 4294967296 ->
+  forall t k, settings_ok t -> (k <= N.to_nat (ts_retries_or_default t))%nat ->
+  wf_s1 s = true -> nodupb (map fst (s1_vars s)) = true ->
+  fst (gs1_query port t (net_init (repeat Timeout k ++ map Datagram (s1_script s)) [] [])) = Ok (s1_expected s).
+Proof. exact gs1_unanswered_requests_retried. Qed.
+Print Assumptions c10_gs1_unanswered_requests_retried.
+
 Example c10_ex : (* two timeouts then a reply, r = 2 *)
   let att : M N := fun n => match n_udp n with
                             | Datagram d :: r => (Ok (lenN d), mknet r [] [] 0 None [])
